@@ -37,7 +37,7 @@ class Node(NodeBase):
 
     def _lazy_default(self):
         w = CUR["world"]
-        if w is None:
+        if w is None or not w.lazy_enabled:
             return None
         return w.lazy_default(self)
 
@@ -78,6 +78,9 @@ class LooseNode(NodeBase):
         return "L%d" % self.uid
 
 
+NODE_CLASSES = {"Node": Node, "ValuelessNode": ValuelessNode, "LooseNode": LooseNode}
+
+
 # ---------------------------------------------------------------------------
 # the model
 
@@ -104,6 +107,11 @@ class MNode:
 
     def __repr__(self):
         return "M%d" % self.uid
+
+    @property
+    def full(self):
+        """Has the full set of links/containers of ``Node``."""
+        return self.cls in ("Node", "PNode")
 
     def traits(self):
         names = ["uid", "value", "label", "child", "lazy", "children", "table", "group", "grid"]
@@ -403,11 +411,15 @@ class World:
         self.fresh_ctr = 1000
         self.dropped = []
         self.pending_lazy = None
+        self.lazy_enabled = True
         if sut_on:
             CUR["world"] = self
         classes = classes or []
+        self.default_cls = "Node"
+        if isinstance(classes, str):
+            self.default_cls, classes = classes, []
         for i in range(npool):
-            self.new_node(classes[i] if i < len(classes) else "Node")
+            self.new_node(classes[i] if i < len(classes) else self.default_cls)
 
     def close(self):
         if self.sut_on:
@@ -444,6 +456,8 @@ class World:
         w.fresh_ctr = self.fresh_ctr
         w.dropped = []
         w.pending_lazy = None
+        w.default_cls = self.default_cls
+        w.lazy_enabled = self.lazy_enabled
         w.pinned_uids = set(getattr(self, "pinned_uids", ()))
         return w
 
@@ -453,7 +467,7 @@ class World:
         self.next_uid += 1
         n = None
         if self.sut_on:
-            klass = {"Node": Node, "ValuelessNode": ValuelessNode, "LooseNode": LooseNode}[cls]
+            klass = NODE_CLASSES[cls]
             n = klass(uid=uid)
         m = MNode(uid, cls)
         self.by_uid[uid] = [n, m]
@@ -465,10 +479,25 @@ class World:
     def lazy_default(self, owner):
         """Called by Node._lazy_default (system under test computing the
         default): the new node joins the pool on both sides."""
-        n, m = self.new_node("Node", pooled=True)
+        n, m = self.new_node(self.default_cls, pooled=True)
         self.env.log("lazy-default", (owner.uid, n.uid))
         self.env.probe("lazy-default-ran")
         return n
+
+    def getter_ran(self, obj, name):
+        f = getattr(self, "on_getter", None)
+        if f is not None:
+            f(obj, name)
+
+    def alive_uids(self):
+        return [uid for uid in sorted(self.by_uid) if self.node(uid) is not None]
+
+    def rebind(self, new_nodes):
+        """Persist/restore: replace every object by its restored copy
+        (``new_nodes``: uid -> object); the model is unchanged."""
+        for uid, n in new_nodes.items():
+            self.by_uid[uid][0] = n
+        self.nodes = [new_nodes[m.uid] for m in self.mnodes]
 
     def m_of(self, node):
         if node is None:
@@ -502,7 +531,7 @@ class World:
         if "none" in ref:
             return None
         if "fresh" in ref:
-            n, m = self.new_node(ref.get("cls", "Node"))
+            n, m = self.new_node(ref.get("cls", self.default_cls))
             return m.uid
         return self.mnodes[self.idx(ref["n"])].uid
 
@@ -625,7 +654,7 @@ class World:
             return []
         if not self.sut_on:
             if m.lazy is UNSET:
-                _, m.lazy = self.new_node("Node")
+                _, m.lazy = self.new_node(self.default_cls)
             return [Change("read", mobj=m, name="lazy", changed=False)]
         before = len(self.nodes)
         v = self._do(step, "reading N%d.lazy" % m.uid, getattr, n, "lazy")
@@ -643,7 +672,7 @@ class World:
         """Materialise a container default by reading it."""
         n, m = self._target(op)
         name = op["name"]
-        if name not in m.traits() or name not in CONTAINERS or m.cls != "Node":
+        if name not in m.traits() or name not in CONTAINERS or not m.full:
             return []
         self.m_container(m, name)
         if self.sut_on:
@@ -652,7 +681,7 @@ class World:
 
     def _assign_container(self, op, step, name, uids_shape, mk_sut, mk_model):
         n, m = self._target(op)
-        if name not in m.traits() or m.cls != "Node":
+        if name not in m.traits() or not m.full:
             return []
         oldm = m.get(name)
         newm = mk_model()
@@ -688,7 +717,7 @@ class World:
 
     def op_children_same(self, op, step):
         n, m = self._target(op)
-        if m.children is UNSET or m.cls != "Node":
+        if m.children is UNSET or not m.full:
             return []
         cur = list(m.children)
         return self._assign_container(
@@ -722,7 +751,7 @@ class World:
     def _mutate(self, op, step, name, ckind, get_sut, get_model, inner_op):
         """Run a C05/C06/C07-style op on a container of objects and model."""
         n, m = self._target(op)
-        if name not in m.traits() or m.cls != "Node":
+        if name not in m.traits() or not m.full:
             return []
         mcont = get_model(m)
         cont = None
@@ -898,7 +927,7 @@ class World:
                         mv is not None and sv.uid != mv.uid):
                     raise Violation("graph.structure", "N%d.%s is %r, model %r"
                                     % (n.uid, name, sv, mv), step)
-            if m.cls != "Node":
+            if not m.full:
                 continue
             for name, ck in CONTAINERS.items():
                 mv = m.get(name)
